@@ -42,6 +42,12 @@ CHECKS["C20"] = dict(
   text="authenticate() must be True exactly for the tag's key (modulo DES parity) / PWD+PACK; every single-bit flip of the authentication and MAC'd-read responses and random tampering must never yield True for a wrong key or altered data from read_with_mac; protect(pw) then authenticate(pw/other). Exhaustive over all 128/48 one-bit key changes and all response bit positions for the explored configurations.",
   note=TRUST + "vlib/ref_felica.py reproduces every recorded MAC of tests/test_tag_tt3_sony.py; simulators vlib/simfelica.py, vlib/simntag.py replay the recorded transcripts. Exceptions that are not wrong results are labelled c16:* and left to C16.")
 
+CHECKS["C12"] = dict(
+  category="fault_enumeration",
+  technique="property-based testing + bounded-exhaustive fault enumeration: real Type4A/4B tag objects on an ISO/IEC 14443-4 PICC model, echo APDUs whose responses carry the card's execution serial, scripts of lost/corrupted blocks",
+  text="All scripts with <= 2 faults in {lost PCD block, lost PICC block, corrupted PICC block} over the first 12 (quick) / 26 (thorough) block exchanges of fixed configurations are enumerated, plus generated configurations/APDU lists/scripts. Each transceive() must return the response of exactly its own single execution or raise Type4TagCommandError with at most one execution; fault counts within the library's own retry policy must be absorbed; no block may exceed FSC.",
+  note=TRUST + "PICC model vlib/isodep_card.py (rules D,E,2,9-13) is trusted. Known findings: C12-no-resync-after-error (class after-error) and C12-wtx-fault-not-recovered (class fault-hits-wtx) are excluded by signature.")
+
 PENDING_REASON = "not claimed yet: its generated-input check (DESIGN.md section 3) is still under construction in this session; nothing is asserted about it"
 
 def main():
